@@ -3,6 +3,7 @@
 package main
 
 import (
+	"bytes"
 	"bufio"
 	"context"
 	"encoding/hex"
@@ -131,6 +132,32 @@ func (f *failing) Read(p []byte) (int, error) {
 	return n, nil
 }
 
+// rich implements, besides Read, the optional interfaces a consumer might upgrade to; every one of them misbehaves
+// (and records its use), so that a result which depends on them differs from the baseline.
+type rich struct {
+	data []byte
+	off  int
+	used string
+}
+
+func (r *rich) Read(p []byte) (int, error) {
+	if r.off >= len(r.data) {
+		return 0, io.EOF
+	}
+	n := copy(p, r.data[r.off:])
+	r.off += n
+	return n, nil
+}
+func (r *rich) ReadByte() (byte, error)             { r.used = "ReadByte"; return 0, io.EOF }
+func (r *rich) ReadRune() (rune, int, error)        { r.used = "ReadRune"; return 0, 0, io.EOF }
+func (r *rich) WriteTo(w io.Writer) (int64, error)  { r.used = "WriteTo"; return 0, nil }
+func (r *rich) Seek(o int64, wh int) (int64, error) { r.used = "Seek"; return 0, errors.New("no seek") }
+func (r *rich) Len() int                            { r.used = "Len"; return 0 }
+func (r *rich) Size() int                           { r.used = "Size"; return 1 << 20 }
+func (r *rich) Buffered() int                       { r.used = "Buffered"; return 0 }
+func (r *rich) Peek(n int) ([]byte, error)          { r.used = "Peek"; return nil, io.EOF }
+func (r *rich) Close() error                        { r.used = "Close"; return nil }
+
 type timeoutErr struct{}
 
 func (timeoutErr) Error() string   { return "i/o timeout" }
@@ -218,6 +245,25 @@ func main() {
 				}
 				check(fmt.Sprintf("split@%d", k), &chunked{data: append([]byte(nil), data...), sizes: []int{k, len(data)}})
 			}
+			// the same bytes behind readers of other dynamic types: the result must not depend on what else the
+			// reader implements (io.RuneReader, io.ByteReader, io.WriterTo, io.Seeker, *bufio.Reader ...)
+			check("bytes.Reader", bytes.NewReader(data))
+			check("bytes.Buffer", bytes.NewBuffer(append([]byte(nil), data...)))
+			check("hidden", struct{ io.Reader }{strings.NewReader(string(data))})
+			check("bufio.Reader", bufio.NewReader(iotest.HalfReader(strings.NewReader(string(data)))))
+			check("bufio.Reader64k", bufio.NewReaderSize(strings.NewReader(string(data)), 1<<16))
+			check("bufio.Reader16", bufio.NewReaderSize(iotest.OneByteReader(strings.NewReader(string(data))), 16))
+			check("limit", io.LimitReader(strings.NewReader(string(data)), int64(len(data))+10))
+			if len(data) > 1 {
+				h := len(data) / 2
+				check("multi", io.MultiReader(strings.NewReader(string(data[:h])), strings.NewReader(string(data[h:]))))
+			}
+			check("tee", io.TeeReader(strings.NewReader(string(data)), io.Discard))
+			rr := &rich{data: data}
+			check("rich", rr)
+			if rr.used != "" {
+				note("Parse used an optional interface of the reader: " + rr.used)
+			}
 			for j := 0; j < 6; j++ {
 				sizes := make([]int, 1+r.intn(5))
 				for i := range sizes {
@@ -236,6 +282,22 @@ func main() {
 							}
 							runs++
 							f := &failing{data: data, k: k, err: e, withData: wd, once: once, chunk: []int{0, 1, 7}[runs%3]}
+							// the failing reader handed over directly or behind a wrapper of another dynamic type
+							var rd io.Reader = f
+							wrap := "plain"
+							switch (runs / 3) % 6 {
+							case 1:
+								rd, wrap = bufio.NewReader(f), "bufio.Reader"
+							case 2:
+								rd, wrap = bufio.NewReaderSize(f, 1<<16), "bufio.Reader64k"
+							case 3:
+								rd, wrap = struct{ io.Reader }{f}, "hidden"
+							case 4:
+								rd, wrap = io.MultiReader(f), "multi"
+							case 5:
+								rd, wrap = io.TeeReader(f, io.Discard), "tee"
+							}
+							_ = wrap
 							var got result
 							var perr error
 							func() {
@@ -244,14 +306,17 @@ func main() {
 										got.panicv = fmt.Sprint(x)
 									}
 								}()
-								_, perr = parser.Parse(context.Background(), f)
+								_, perr = parser.Parse(context.Background(), rd)
 							}()
 							if got.panicv != "" {
 								note(fmt.Sprintf("fail@%d kind=%d: panic %s", k, ki, got.panicv))
 								continue
 							}
-							if f.failed && !errors.Is(perr, e) {
-								note(fmt.Sprintf("fail@%d kind=%d withData=%v once=%v: reader returned %q but Parse returned err=%v", k, ki, wd, once, e.Error(), perr))
+							// a buffering wrapper hands the error on at its NEXT Read; the lexer stops reading at a NUL byte, so
+							// with a NUL before the failure point the reader passed to Parse may never have returned the error
+							deferred := strings.HasPrefix(wrap, "bufio") && bytes.IndexByte(data[:min(k, len(data))], 0) >= 0
+							if f.failed && !deferred && !errors.Is(perr, e) {
+								note(fmt.Sprintf("fail@%d kind=%d withData=%v once=%v reader=%s: reader returned %q but Parse returned err=%v", k, ki, wd, once, wrap, e.Error(), perr))
 							}
 							if !f.failed && !same(base, run(strings.NewReader(string(data)))) {
 								note("baseline not deterministic")
